@@ -324,6 +324,9 @@ WITNESSES = [
     dict(id="c06-rename-guard", prop="C06", file=E, expect="R06e",
          old="        if not isinstance(current, str) or not isinstance(new, str):\n            raise Inputerror(\"Old and new tensor name need to be provided as \"\n                             \"strings.\")\n        renamed = 0",
          new="        renamed = 0"),
+    # Term containers are views (expression, position): taken before the symmetry is applied they read the re-canonicalised
+    # content, but bra-ket partners that the symmetry identifies are collected into one summand, so the stale positions
+    # no longer enumerate the summands (x^b_i + x^i_b -> 2 x^i_b is processed twice)
     dict(id="c06-makereal-terms-before-symmetry", prop="C06", file=E, expect=["R06e", "R06f"], edits=[
         ("        self._real = True\n        sym_tensors = self._sym_tensors\n", "        self._real = True\n        terms = self.terms\n        sym_tensors = self._sym_tensors\n"),
         ("        self._expr = Add(*[t.make_real(return_sympy=True)\n                           for t in self.terms])", "        self._expr = Add(*[t.make_real(return_sympy=True)\n                           for t in terms])")]),
